@@ -6,7 +6,7 @@ a MIR body is interpreted from that body, not modelled here -- with the exceptio
 import glob, os, re
 from z3 import (BitVecVal, BoolVal, And, Or, Not, If, Extract, SignExt, ZeroExt, BVAddNoOverflow, BVAddNoUnderflow, BVSubNoOverflow,
                 BVSubNoUnderflow, BVMulNoOverflow, BVMulNoUnderflow, is_true, is_false, simplify)
-from .vm import (BV, UNIT, Tup, Struct, Enum, SymEnum, Cell, Ref, Seq, Bits, Str, Closure, Opaque, Iter, Unsupported, NativeFork, NativePanic,
+from .vm import (BV, UNIT, Tup, Struct, Enum, SymEnum, Cell, Ref, Seq, Bits, Str, Closure, FnItem, Opaque, Iter, Unsupported, NativeFork, NativePanic,
                  bool_, is_concrete_bool, mk_int, concrete_int, INT_TYPES)
 from vlib.common import REPO
 
@@ -284,6 +284,19 @@ def call_merged(vm, m, fname, args, tybind=None):
 
 def call_closure(vm, m, clo, argvals, no_panic=False):
     c = dv(vm, clo)
+    if isinstance(c, FnItem):
+        fname = vm.fn_item_name(c.text, None)
+        if fname is None and c.owner:
+            nested = re.sub(r'@@\d+$', '', c.owner) + '::' + re.sub(r'::<.*>$', '', c.text).split('::')[-1]
+            fname = nested if nested in vm.prog.funcs else None
+        if fname is None:
+            raise Unsupported('function item ' + c.text)
+        tb = dict(c.tybind)
+        try:
+            tb.update(vm.bind_generics(fname, c.text))
+        except Exception:
+            pass
+        return call_merged(vm, m, fname, list(argvals), tb)
     if not isinstance(c, Closure):
         raise Unsupported('calling a non-closure %r' % (c,))
     fname = vm.closure_fn(c.span, c.owner, argvals)
